@@ -9,6 +9,7 @@
 #define STR_MAX 24
 #include "libc_str.h"
 #define strtol(s, e, b) m_strtol10(s, e)
+#define strtoul(s, e, b) m_strtoul10(s, e)
 #define snprintf m_snprintf
 
 #include "attr_path.h"
@@ -57,6 +58,7 @@ void ut_free(void *p) { if (p != NULL) g_frees++; free(p); }
 #include "attr_path.c"
 #undef snprintf
 #undef strtol
+#undef strtoul
 
 /* ---- reference recogniser of the documented syntax ------------------------
  * root path:      key ( '.' key | '[' digits ']' )*
@@ -90,6 +92,28 @@ static int ref_parse(const char *s, bool root, size_t *canon_len)
     return n;
 }
 
+#ifdef OP_INDEX
+/* one list index at the edge of the index type, as a CONSTANT string per obligation (IDX, FITS): "[IDX]" as a relative path at
+ * real table sizes.  Accepted <=> the value fits the type the path prints with (%zd, i.e. <= LONG_MAX - 1); an accepted index
+ * prints as the same digits and the printed form parses to an equal path.  (Twenty symbolic digits did not get through
+ * symbolic execution in 12 minutes; on literals CBMC folds the computation.) */
+int main(void)
+{
+    static const char in[] = "[" IDX "]";
+    struct attr_path *p = attr_path_parse(in, false);
+    CHECK((p != NULL) == (FITS != 0), "C19: an index is accepted exactly if it is one the printer can print (0 .. LONG_MAX-1)");
+    if (p != NULL) {
+	char *str = attr_path_to_str(p, false);
+	CHECK(strlen(str) == attr_path_len(p, false), "C19: attr_path_len = length of the printed path");
+	CHECK(strcmp(str, in) == 0, "C19: an accepted index prints as its own digits");
+	struct attr_path *q = attr_path_parse(str, false);
+	CHECK(q != NULL && attr_path_equal(p, q), "C19: parsing a printed path gives an equal path - for every index the parser accepts");
+	CHECK(attr_path_equal_str(p, str, false), "C19: equal_str agrees on the printed form");
+	attr_path_destroy(q); ut_free(str); attr_path_destroy(p);
+    }
+    return 0;
+}
+#else
 int main(void)
 {
     char in[NSTR + 1];
@@ -135,3 +159,4 @@ int main(void)
     CHECK(g_allocs == g_frees, "C19,C10: nothing is leaked, whether the string is accepted or rejected");
     return 0;
 }
+#endif /* OP_INDEX */
